@@ -23,12 +23,13 @@ ObservedUpdate ==
 TReset  == IsEvent("Reset") /\ SetUp(Tr[l].W) /\ kind' = Tr[l].kind /\ UNCHANGED saved
 TUpdate == IsEvent("update") /\ Update(Tr[l].q) /\ ObservedUpdate /\ UNCHANGED <<saved, kind>>
 TResetCall == IsEvent("reset") /\ Reset /\ Tr[l].avail = (0 >= W) /\ UNCHANGED <<saved, kind>>
+TResize == IsEvent("resize") /\ Resize(Tr[l].W) /\ ~Tr[l].avail /\ UNCHANGED <<saved, kind>>
 TSave    == IsEvent("save") /\ saved' = ssvars /\ UNCHANGED <<ssvars, kind>>
 TRestore == /\ IsEvent("restore")
             /\ W' = saved[1] /\ win' = saved[2] /\ cnt' = saved[3] /\ data' = saved[4]
             /\ idx' = saved[5] /\ sum' = saved[6] /\ sumsq' = saved[7]
             /\ UNCHANGED <<saved, kind>>
-TraceNext == TReset \/ TUpdate \/ TResetCall \/ TSave \/ TRestore
+TraceNext == TResize \/ TReset \/ TUpdate \/ TResetCall \/ TSave \/ TRestore
 TraceSpec == TraceInit /\ [][TraceNext]_tvars
 TraceAccepted == TLCGet("stats").diameter - 1 = Len(Tr)
 =============================================================================
